@@ -704,8 +704,34 @@ func modeTotal(seed uint64, n int, out *sx.Out) {
 			continue
 		}
 		m := append([]byte(nil), b...)
-		kind := r.Intn(10)
+		kind := r.Intn(13)
 		switch {
+		case kind >= 10: // the length word of a string-valued field replaced by a value around the wrap-around / buffer end
+			nf := int(binary.LittleEndian.Uint32(b[8:]))
+			var strIdx []int
+			var offs []uint32
+			off := uint32(0)
+			for k := 0; k < nf && k < 64; k++ {
+				code := binary.LittleEndian.Uint32(b[4*(67+k):])
+				switch code {
+				case 13, 14, 15, 16, 17, 19, 20, 21, 22, 23, 105, 107, 112, 210:
+					strIdx = append(strIdx, k)
+					offs = append(offs, off)
+					off += binary.LittleEndian.Uint32(b[4*(131+k):])
+				}
+			}
+			if len(strIdx) == 0 {
+				binary.LittleEndian.PutUint32(m[4*259:], sx.Pick(r, words))
+				break
+			}
+			j := r.Intn(len(strIdx))
+			if len(strIdx) > 1 && r.Chance(2, 3) {
+				j = 1 + r.Intn(len(strIdx)-1) // a later string: the running offset is not zero
+			}
+			buflen := binary.LittleEndian.Uint32(b[4*259:])
+			o := offs[j]
+			v := sx.Pick(r, []uint32{0xffffffff, 0xfffffffe, 0 - o, 0 - o + 1, 0 - o - 1, 0x80000000, buflen - o, buflen - o + 1, buflen, buflen + 1, 0x7fffffff})
+			binary.LittleEndian.PutUint32(m[4*(131+strIdx[j]):], v)
 		case kind < 6: // one header word replaced by a boundary value
 			w := r.Intn(260)
 			if r.Chance(1, 2) {
